@@ -20,6 +20,10 @@ STATE_RECV = (("self",), ("parser",), ("state",))
 LOCAL_PREFIXES = ("parse_", "consume_", "form_", "build_", "transform_", "from_parse", "new_image", "set_atom_name", "push_components")
 
 
+def is_string_ty(ty):
+    return (ty or "").replace("&mut ", "").replace("&", "").strip() in ("std::string::String", "String", "alloc::string::String")
+
+
 PARAMS = {}      # name -> "$k" for the function being abstracted (set by Skel.of_fn)
 
 
@@ -50,6 +54,7 @@ def argkey(e):
 class Skel:
     def __init__(self, facts):
         self.f = facts
+        self.progress_only = set()
 
     def of_fn(self, it):
         PARAMS.clear()
@@ -58,6 +63,26 @@ class Skel:
             if q.get("k") == "Binding" and q["name"] != "self":
                 k += 1
                 PARAMS[q["name"]] = "$%d" % k
+        # `let start = self.head; ...; if self.head == start {err}` is a PROGRESS TEST: the snapshot is not a backtracking point.  It is the same
+        # production as `if buffer.is_empty() {err}` on the String the scanner fills, so both are rendered ("noprogress",)
+        self.progress_only = set()
+        snaps = {}
+        for n in hir.walk(it["body"]):
+            if n.get("k") == "Let" and n.get("init") is not None and n["pat"].get("k") == "Binding":
+                ip = field_path(strip(n["init"]))
+                if ip and ip[0] in ("self", "parser") and ip[-1] == "head":
+                    snaps[n["pat"]["hid"]] = 0
+        if snaps:
+            uses, cmps = dict.fromkeys(snaps, 0), dict.fromkeys(snaps, 0)
+            for n in hir.walk(it["body"]):
+                if n.get("k") == "Path" and n["path"].get("res") == "local" and n["path"].get("hid") in snaps:
+                    uses[n["path"]["hid"]] += 1
+                if n.get("k") == "Binary" and n["op"] in ("==", "!=", "Eq", "Ne"):
+                    for a, b_ in ((n["l"], n["r"]), (n["r"], n["l"])):
+                        a, b_ = strip(a), strip(b_)
+                        if a["k"] == "Path" and a["path"].get("hid") in snaps and field_path(b_) in (("self", "head"), ("parser", "head")):
+                            cmps[a["path"]["hid"]] += 1
+            self.progress_only = {h for h in snaps if uses[h] == cmps[h] and uses[h] > 0}
         return self.norm(self.ops(it["body"]))
 
     def ops(self, e):
@@ -71,7 +96,8 @@ class Skel:
                 if s["k"] == "Let":
                     out += self.ops(s.get("init"))
                     ip = field_path(strip(s["init"])) if s.get("init") else None
-                    if ip and ip[0] in ("self", "parser") and ip[-1] in ("head", "len_env") and s["pat"]["k"] == "Binding":
+                    if ip and ip[0] in ("self", "parser") and ip[-1] in ("head", "len_env") and s["pat"]["k"] == "Binding" \
+                            and s["pat"].get("hid") not in self.progress_only:
                         out.append(("snapshot", ".".join(("self",) + tuple(ip[1:]))))
                     if s.get("els"):
                         out += [("else", self.norm(self.ops(s["els"])))]
@@ -94,8 +120,10 @@ class Skel:
                 return inner + [("test", "env." + m)]
             if rp and len(rp) >= 2 and rp[-2] == "mid_result" and m in SLOT_METHODS:
                 return inner + [("slot", rp[-1], m)]
-            if rp and len(rp) == 1 and rp[0].endswith("buffer") and m in BUFFER_METHODS:
-                return inner + [("buf", m)]
+            if rp and len(rp) == 1 and m == "is_empty" and is_string_ty(recv.get("ty")) and recv["k"] == "Path":
+                return inner + [("noprogress",)]
+            if rp and len(rp) == 1 and m in BUFFER_METHODS and is_string_ty(recv.get("ty")):
+                return inner + [("buf", m)]          # a local String being filled (by TYPE, not by the local's name)
             if m.startswith("is_") and (strip(e["recv"]).get("ty") or "") in ("char", "&char"):
                 return inner + [("cls", m)]
             d = e.get("def") or ""
@@ -170,6 +198,9 @@ class Skel:
             if e["op"] in ("&&", "||", "And", "Or") and out:
                 out.append(("bool", "&&" if e["op"] in ("&&", "And") else "||"))
             fl, fr = field_path(l), field_path(r)
+            for a, b_ in ((l, r), (r, l)):
+                if a["k"] == "Path" and a["path"].get("hid") in self.progress_only and field_path(b_) in (("self", "head"), ("parser", "head")):
+                    return out + ([("noprogress",)] if e["op"] in ("==", "Eq") else [("noprogress",), ("not",)])
             if (fl and fl[-1] in ("head", "len_env") and fl[0] in ("self", "parser")) or (fr and fr[-1] in ("head", "len_env") and fr[0] in ("self", "parser")):
                 def side(fp_):
                     if not fp_:
